@@ -735,6 +735,10 @@ class EvalMixin:
                 return [Res(st, SV("val", self.hget(st, attr, r)))]
             if attr == "__class__":
                 return [Res(st, SV("cls", self.class_of_val(obj.t)))]
+            # narrowing by a preceding isinstance test
+            for tester, kind, acc in ((Val.is_StrV, "str", Val.sv), (Val.is_BytesV, "bytes", Val.yv)):
+                if self.implied(st, tester(obj.t)):
+                    return self.getattr(st, SV(kind, acc(obj.t)), attr)
             raise Unsupported("attribute %s of untyped value" % attr)
         if k == "func":
             # attributes stored on function objects (wrapper.debug): one heap cell per (function node, attr)
